@@ -148,6 +148,16 @@ func selectorStyles(key string) []selectorStyle {
 			match: map[string]string{key: "2"}, nomatch: []map[string]string{{}, {key: "1"}, {key + "-first": "2"}}},
 		{name: "and-two-labels", sel: []metav1.LabelSelector{{MatchLabels: map[string]string{key: "1", key + "-b": "2"}}},
 			match: map[string]string{key: "1", key + "-b": "2"}, nomatch: []map[string]string{{}, {key: "1"}, {key + "-b": "2"}}},
+		// lists in which an entry that selects nothing (malformed: the webhook logs "Invalid selector" and goes on; empty:
+		// documented as never matching) precedes or follows the entry that decides
+		{name: "malformed-first", sel: []metav1.LabelSelector{{MatchExpressions: []metav1.LabelSelectorRequirement{{Key: key + "-bad", Operator: metav1.LabelSelectorOpIn}}}, {MatchLabels: map[string]string{key: "yes"}}},
+			match: map[string]string{key: "yes"}, nomatch: []map[string]string{{}, {key: "no"}, {key + "-bad": "yes"}}},
+		{name: "bad-operator-first", sel: []metav1.LabelSelector{{MatchExpressions: []metav1.LabelSelectorRequirement{{Key: key, Operator: "Near", Values: []string{"yes"}}}}, {MatchExpressions: []metav1.LabelSelectorRequirement{{Key: key, Operator: metav1.LabelSelectorOpExists}}}},
+			match: map[string]string{key: "yes"}, nomatch: []map[string]string{{}, {key + "x": "yes"}}},
+		{name: "malformed-last", sel: []metav1.LabelSelector{{MatchLabels: map[string]string{key: "yes"}}, {MatchExpressions: []metav1.LabelSelectorRequirement{{Key: key + "-bad", Operator: metav1.LabelSelectorOpExists, Values: []string{"x"}}}}},
+			match: map[string]string{key: "yes"}, nomatch: []map[string]string{{}, {key: "no"}, {key + "-bad": "x"}}},
+		{name: "empty-first", sel: []metav1.LabelSelector{{}, {MatchLabels: map[string]string{key: "yes"}}},
+			match: map[string]string{key: "yes"}, nomatch: []map[string]string{{}, {key: "no"}}},
 	}
 }
 
